@@ -639,7 +639,11 @@ func check(prop, tier string) int {
 	ev.Coverage = cov
 	ev.Assumptions = assumptionsOf(prop)
 	eb, _ := json.MarshalIndent(ev, "", " ")
-	os.WriteFile(filepath.Join(root, "evidence", prop+".json"), eb, 0o644)
+	if os.Getenv("VERIF_NO_EVIDENCE") == "" {
+		// (helper scripts that run the checks against deliberately broken trees set
+		// VERIF_NO_EVIDENCE so that the committed evidence always describes /repo)
+		os.WriteFile(filepath.Join(root, "evidence", prop+".json"), eb, 0o644)
+	}
 
 	fmt.Printf("runs=%d distinct_nontrivial=%d fake_s=%.1f wall_s=%.1f fired=%v cap_hits=%d determinism_recheck=%d/%d mismatches\n",
 		agg.Runs, len(hashes), float64(agg.FakeNs)/1e9, wall, agg.Fired, agg.CapHits, detMismatch, detChecked)
